@@ -4,6 +4,9 @@ package s3db
 
 func vC05Table(bkt *vBucket) *VirtualTable {
 	w := vMustOpen(bkt.client(1), vTableOpts{bf: 2}, 10)
+	if symChoice("empty-at-begin", 2) == 1 {
+		return w // a brand-new table: nothing stored yet
+	}
 	for k := 1; k <= 4; k++ {
 		if err := vIns(w, int64(100+k), int64(k), int64(k*10), nil); err != nil {
 			panic(err)
@@ -30,14 +33,25 @@ func vC05Stmt(w *VirtualTable, kind int, t int64) {
 		ok, err := vHas(w, int64(6))
 		symAssert(err == nil && ok, "reads-own-insert")
 	case 1: // insert an existing key: constraint failure, nothing changes
+		had, _ := vHas(w, int64(2))
 		err := vIns(w, t, int64(2), int64(99), nil)
-		symAssert(err == ErrS3DBConstraintPrimaryKey, "duplicate-key-refused")
+		if had {
+			symAssert(err == ErrS3DBConstraintPrimaryKey, "duplicate-key-refused")
+		} else {
+			symAssert(err == nil, "insert-ok")
+		}
 	case 2: // update
+		if had, _ := vHas(w, int64(2)); !had {
+			return // SQLite finds no row to update
+		}
 		symAssert(w.Update(vAt(t), int64(2), map[int]interface{}{1: int64(21)}) == nil, "update-ok")
 		rows, err := vScanIdx(w, "asc  1", []interface{}{int64(2)})
 		symAssert(err == nil, "read-after-update-ok")
 		symAssert(len(rows) == 1 && rows[0].b == int64(21), "reads-own-update")
 	case 3: // delete
+		if had, _ := vHas(w, int64(3)); !had {
+			return
+		}
 		symAssert(w.Delete(vAt(t), int64(3)) == nil, "delete-ok")
 		ok, err := vHas(w, int64(3))
 		symAssert(err == nil && !ok, "reads-own-delete")
@@ -81,7 +95,7 @@ func VerifH_C05_txn() {
 		symAssert(w.Commit(vCtx) == nil, "commit-ok")
 		symAssert(w.txStart == nil, "commit-ends-transaction")
 		cur1 := bkt.names(vPrefix + "/root/current/")
-		symAssert(len(cur1) == 1, "one-current-version")
+		symAssert(len(cur1) <= 1, "at-most-one-current-version")
 		after, err := vScan(w)
 		symAssert(err == nil, "post-commit-scan-ok")
 		symAssert(vRowsEq(after, inTxn), "commit-keeps-transaction-effects")
